@@ -72,6 +72,8 @@ seq_t dtw_distance{{ suffix }}{{ suffix2 }}(seq_t *s1, idx_t l1,
         if (settings->only_ub) {
             return max_dist;
         }
+        // Rounding (sqrt followed by pow) must not prune the Euclidean alignment itself
+        max_dist *= (1 + 1e-12);
     } else if (max_dist == 0) {
         max_dist = INFINITY;
     {%- if "euclidean" == inner_dist %}
